@@ -510,7 +510,588 @@ def gen_c08(rng, tier):
     return out
 
 
+# ------------------------------------------------------------------------------- C09
+def gen_c09(rng, tier):
+    out = []
+    k = 0
+    lens = [2047, 2048, 2049, 4095, 4096, 4097, 6143, 6144, 6145, 8192, 10001] + sizes(tier, [12289], [16384, 20481, 40000, 65537, 100003])
+    for n in lens:
+        for fam in ["q", "hq"]:
+            kinds = QWT_KINDS if fam == "q" else HQ_KINDS
+            for kind in (kinds if n < 7000 else [rng.choice(kinds[2:])]):
+                elem = rng.choice(["u8", "u16", "u32", "u64"])
+                if fam == "q":
+                    mx = rng.choice([20, 63, 64, 255, 1000 if WIDTH[elem] >= 16 else 255, 70000 if WIDTH[elem] >= 32 else 255])
+                    c = tree_case(rng, "c09-%d" % k, kind, elem, tier, "q", n=n, maxsym=min(mx, 2 ** WIDTH[elem] - 1), sweep=False)
+                else:
+                    c = huff_case(rng, "c09-%d" % k, kind, elem, tier, "hq", n=n, sweep=False, mix=rng.choice(["fib", "geometric", "uniform", "runs"]))
+                syms = sorted(set(c.seq))
+                pick = rng.sample(syms, min(len(syms), 5)) + [max(syms) + 1, 0]
+                for sym in pick:
+                    if sym < 2 ** WIDTH[elem]:
+                        c.add("Q rankpall %d" % sym)
+                        c.add("Q rankall %d" % sym)
+                        c.add("Q rankp %d %d" % (sym, MAXU))
+                c.model = n <= 6145
+                c.tags["cost"] = n * 40
+                out.append(c)
+                k += 1
+    for kind in ["qwt256pfs", "hqwt512pfs"]:
+        c = Case("c09-empty-%s" % kind, tags=dict(kind=kind, n=0, trivial=True))
+        c.add("NEW %s u16 new 0" % kind)
+        if kind.startswith("hq"):
+            c.add("Q codes")
+        c.add("Q rankp 0 0")
+        c.add("Q rankp 3 1")
+        out.append(c)
+    return out
+
+
+def post_c09(prop, cases, outs, profiles):
+    """rank_prefetch must equal rank on every (symbol, position), in every profile, and the
+    builds with and without the prefetch feature must print identical lines"""
+    import check as K
+    fs = []
+    idx = 0
+    for c in cases:
+        idx += 1
+        prev = None
+        for kk, l in enumerate(c.lines):
+            for prof in profiles:
+                a = outs[prof][idx]
+                if l.startswith("Q rankall ") and kk > 0 and c.lines[kk - 1] == l.replace("rankall", "rankpall"):
+                    b = outs[prof][idx - 1]
+                    if a != b:
+                        j, x, y = K.first_diff(a, b, lambda u, v: u == v)
+                        fs.append(K.Finding("violation", prop, c, kk, "Q rankp %s %d" % (l.split()[2], j), prof, x, y, "rank_prefetch differs from rank"))
+            if "rel" in outs and "relnopf" in outs and outs["rel"][idx] != outs["relnopf"][idx] and not l.startswith("Q codes") and not l.startswith("SPACE"):
+                fs.append(K.Finding("violation", prop, c, kk, l, "relnopf", outs["rel"][idx][:60], outs["relnopf"][idx][:60], "prefetch feature on/off builds disagree"))
+            idx += 1
+    return fs
+
+
+# ------------------------------------------------------------------------------- C10
+def gen_c10(rng, tier):
+    out = []
+    k = 0
+    for _ in range(sizes(tier, 60, 300)):
+        fam = rng.choice(["q", "hq", "w", "hw"])
+        elem = rng.choice(ELEMS)
+        if fam == "q":
+            c = tree_case(rng, "c10-%d" % k, rng.choice(QWT_KINDS), elem, tier, "q", sweep=False, n=rng.choice([1, 5, 300, 2049, 4097]))
+        elif fam == "w":
+            c = tree_case(rng, "c10-%d" % k, "wt", elem, tier, "w", sweep=False, n=rng.choice([1, 5, 300, 2049, 4097]))
+        else:
+            c = huff_case(rng, "c10-%d" % k, rng.choice(HQ_KINDS) if fam == "hq" else "hwt", elem, tier, fam, sweep=False, n=rng.choice([1, 5, 300, 2049, 4097]))
+        seq = c.seq
+        n = len(seq)
+        keep = [c.lines[0]] + ([c.lines[1]] if c.lines[1] == "Q codes" else [])
+        c.lines = keep
+        present = sorted(set(seq))
+        for _ in range(40):
+            i = rng.randrange(n)
+            c.add("Q uget %d" % i)
+            c.add("Q get %d" % i)
+            s = rng.choice(present) if fam in ("hq", "hw") or rng.random() < 0.7 else rng.randrange(0, max(present) + 1)
+            i = rng.randrange(n + 1)
+            c.add("Q urank %d %d" % (s, i))
+            c.add("Q rank %d %d" % (s, i))
+            if fam in ("q", "hq"):
+                c.add("Q urankp %d %d" % (s, i))
+            occ = seq.count(s)
+            if occ:
+                kq = rng.choice([0, occ - 1, rng.randrange(occ)])
+                c.add("Q uselect %d %d" % (s, kq))
+                c.add("Q select %d %d" % (s, kq))
+        c.model = True
+        out.append(c)
+        k += 1
+    # quad / bit structures
+    for _ in range(sizes(tier, 40, 200)):
+        n = rng.choice([1, 2, 255, 256, 257, 511, 513, 2048, 2049, 4100, 9000])
+        kind = rng.choice(["rsq256", "rsq512"])
+        s, mix = C.gen_quad_seq(rng, n)
+        c = Case("c10-r%d" % k, tags=dict(kind=kind, n=n, mix=mix, cost=n * 4))
+        c.add(C.new_line(kind, "u64", "new", s))
+        for _ in range(40):
+            sym = rng.randrange(4)
+            c.add("Q uget %d" % rng.randrange(n))
+            c.add("Q urank %d %d" % (sym, rng.randrange(n + 1)))
+            c.add("Q uoccs %d" % sym)
+            c.add("Q uoccssmaller %d" % sym)
+            occ = s.count(sym)
+            if occ:
+                c.add("Q uselect %d %d" % (sym, rng.choice([0, occ - 1, rng.randrange(occ)])))
+        out.append(c)
+        k += 1
+    for _ in range(sizes(tier, 40, 200)):
+        n = rng.choice([1, 2, 63, 64, 65, 511, 512, 513, 4096, 4097, 9000])
+        kind = rng.choice(["rsn", "rsw", "darray1", "bv", "bvm"])
+        bits, mix = C.gen_bits(rng, n)
+        c = Case("c10-b%d" % k, tags=dict(kind=kind, n=n, mix=mix, cost=n * 4))
+        c.add(C.bits_line(kind, "bits" if kind in ("bv", "bvm", "darray1") else "new", bits))
+        ones = sum(bits)
+        for _ in range(40):
+            c.add("Q uget %d" % rng.randrange(n))
+            if kind in ("rsn", "rsw"):
+                c.add("Q urank1 %d" % rng.randrange(n + 1))
+                if kind == "rsw":
+                    c.add("Q urank0 %d" % rng.randrange(n + 1))
+            if kind in ("rsn", "rsw", "darray1"):
+                if ones:
+                    c.add("Q uselect1 %d" % rng.randrange(ones))
+                if n - ones:
+                    c.add("Q uselect0 %d" % rng.randrange(n - ones))
+            if kind in ("bv", "bvm"):
+                ln = rng.randrange(1, 65)
+                if n > ln + (1 if kind == "bvm" else 0):
+                    c.add("Q ugetbits %d %d" % (rng.randrange(n - ln - (1 if kind == "bvm" else 0) + 1), ln))
+        out.append(c)
+        k += 1
+    return out
+
+
+# ------------------------------------------------------------------------------- C11
+def any_structure_case(rng, cid, tier, small=True):
+    """a case that builds one structure of a random kind (used by C04, C11, C16, C18, C19)"""
+    fam = rng.choice(["q", "hq", "w", "hw", "rsq", "rsn", "rsw", "da", "bv", "bvm", "qv"])
+    n = rng.choice([0, 1, 2, 5, 63, 64, 65, 255, 256, 257, 513, 1000, 2049] + ([] if small else [4097, 8193, 20000]))
+    if fam in ("q", "w"):
+        kind = rng.choice(QWT_KINDS) if fam == "q" else "wt"
+        c = tree_case(rng, cid, kind, rng.choice(ELEMS), tier, fam, n=n, sweep=False)
+        c.fam = fam
+        return c
+    if fam in ("hq", "hw"):
+        kind = rng.choice(HQ_KINDS) if fam == "hq" else "hwt"
+        c = huff_case(rng, cid, kind, rng.choice(ELEMS), tier, fam, n=n, sweep=False)
+        c.fam = fam
+        return c
+    c = Case(cid, tags=dict(n=n))
+    c.fam = fam
+    if fam == "rsq":
+        kind = rng.choice(["rsq256", "rsq512"])
+        s, mix = C.gen_quad_seq(rng, n)
+        c.add(C.new_line(kind, "u64", rng.choice(["new", "from", "collect"]), s))
+        c.seq = s
+        for sym in range(5):
+            c.add("Q rank %d %d" % (sym, rng.randrange(n + 2)))
+            c.add("Q select %d %d" % (sym, rng.randrange(n + 2)))
+            c.add("Q occs %d" % sym)
+        c.add("Q get %d" % rng.randrange(n + 2))
+    elif fam == "qv":
+        kind = "qv"
+        s, mix = C.gen_quad_seq(rng, n)
+        c.add(C.new_line("qv", rng.choice(QV_ELEMS), rng.choice(["collect", "builder", "extend"]), s))
+        c.seq = s
+        c.add("Q len")
+        c.add("Q get %d" % rng.randrange(n + 2))
+    else:
+        bits, mix = C.gen_bits(rng, n)
+        kind = {"rsn": "rsn", "rsw": "rsw", "da": rng.choice(["darray0", "darray1"]), "bv": "bv", "bvm": "bvm"}[fam]
+        path = "bits" if kind in ("bv", "bvm") or kind.startswith("darray") else rng.choice(["new", "from"])
+        c.add(C.bits_line(kind, path, bits))
+        c.seq = bits
+        ones = sum(bits)
+        if kind in ("rsn", "rsw"):
+            for _ in range(4):
+                c.add("Q rank1 %d" % rng.randrange(n + 2))
+                c.add("Q select1 %d" % rng.randrange(ones + 2))
+                c.add("Q select0 %d" % rng.randrange(n - ones + 2))
+        elif kind.startswith("darray"):
+            for _ in range(4):
+                c.add("Q select1 %d" % rng.randrange(ones + 2))
+                if kind == "darray1":
+                    c.add("Q select0 %d" % rng.randrange(n - ones + 2))
+        else:
+            c.add("Q len")
+            c.add("Q countones")
+            c.add("Q get %d" % rng.randrange(n + 2))
+            c.add("Q getbits %d %d" % (rng.randrange(n + 2), rng.randrange(0, 66)))
+    c.tags.update(kind=kind, mix=mix, trivial=(n == 0))
+    return c
+
+
+def gen_c11(rng, tier):
+    out = []
+    for k in range(sizes(tier, 110, 500)):
+        c = any_structure_case(rng, "c11-%d" % k, tier)
+        queries = [l for l in c.lines if l.startswith("Q ") and l != "Q codes"]
+        c.add("SER")
+        c.add("RT")          # replaces the value by deserialize(serialize(value)); prints eq + byte identity
+        for q in queries:    # the deserialized value answers identically (compared with spec and model again)
+            c.add(q)
+        c.add("SER")
+        c.model = c.tags.get("n", 0) <= 1100
+        out.append(c)
+    return out
+
+
+def post_c11(prop, cases, outs, profiles):
+    import check as K
+    fs = []
+    idx = 0
+    for c in cases:
+        idx += 1
+        first_ser = None
+        for kk, l in enumerate(c.lines):
+            for prof in profiles:
+                a = outs[prof][idx]
+                if l == "RT" and a != "TT":
+                    fs.append(K.Finding("violation", prop, c, kk, l, prof, "TT", a, "deserialized value differs from the original (== / re-serialization)"))
+                if l == "SER":
+                    if first_ser is None or first_ser[0] != prof:
+                        if first_ser is None:
+                            first_ser = (prof, a)
+                    elif first_ser[1] != a:
+                        fs.append(K.Finding("violation", prop, c, kk, l, prof, first_ser[1][:40], a[:40], "serialization of the round-tripped value differs"))
+            idx += 1
+    return fs
+
+
+# ------------------------------------------------------------------------------- C12
+def gen_c12(rng, tier):
+    out = []
+    for k in range(sizes(tier, 120, 600)):
+        c = any_structure_case(rng, "c12-%d" % k, tier)
+        n = c.tags.get("n", 0)
+        c.lines = [l for l in c.lines if l.startswith("NEW") or l == "Q codes"]
+        fam = c.fam
+        def hist(alphabet, ln):
+            return "".join(rng.choice(alphabet) for _ in range(ln))
+        if fam in ("q", "hq", "w", "hw"):
+            for src in ["iter", "into"]:
+                c.add("ITER %s %s" % (src, "n" * (n + 3) + "l"))
+                c.add("ITER %s %s" % (src, "b" * (n + 3) + "l"))
+                for _ in range(3):
+                    c.add("ITER %s %s" % (src, hist("nbl", rng.choice([5, n + 4, 2 * n + 6]))))
+                c.add("ITER %s %s" % (src, "l" + hist("nb", n + 2) + "lnblnbl"))
+        elif fam in ("qv", "rsq"):
+            for src in ["iter", "into"]:
+                c.add("ITER %s %s" % (src, "n" * (n + 4)))
+        elif fam in ("bv", "bvm"):
+            for src in ["iter", "into"]:
+                c.add("ITER %s %s" % (src, hist("nl", n + 5) + "nnll"))
+                c.add("ITER %s %s" % (src, "n" * (n + 2) + "lnlnl"))
+            for src in ["ones", "zeros"]:
+                c.add("ITER %s %s" % (src, "n" * min(n + 3, 400)))
+            for p in [0, n, n + 1, rng.randrange(n + 1), n + 1000]:
+                c.add("ITER oneswp %s %d" % ("n" * 12, p))
+                c.add("ITER zeroswp %s %d" % ("n" * 12, p))
+        elif fam == "da":
+            c.add("ITER bits %s" % (hist("nl", n + 5)))
+            c.add("ITER ones %s" % ("n" * min(n + 3, 400)))
+            c.add("ITER zeros %s" % ("n" * min(n + 3, 400)))
+            c.add("ITER oneswp %s %d" % ("n" * 12, rng.randrange(n + 2)))
+        c.tags["cost"] = n * 30
+        c.model = n <= 1100
+        out.append(c)
+    return out
+
+
+# ------------------------------------------------------------------------------- C17
+def gen_c17(rng, tier):
+    out = []
+    c = Case("c17-selword", tags=dict(kind="select_in_word"))
+    words = [0, 1, 2 ** 63, 2 ** 64 - 1, 0x8080808080808080, 0x0101010101010101, 0xFF, 0xFF00000000000000, 0x00FF00FF00FF00FF, 0xAAAAAAAAAAAAAAAA, 0x5555555555555555]
+    for b in range(8):
+        words += [0xFF << (8 * b), 1 << (8 * b), 0x80 << (8 * b), (2 ** 64 - 1) ^ (0xFF << (8 * b))]
+    for _ in range(sizes(tier, 1500, 20000)):
+        st = rng.choice(["uniform", "sparse", "dense", "bytes"])
+        if st == "uniform":
+            w = rng.getrandbits(64)
+        elif st == "sparse":
+            w = 0
+            for _ in range(rng.randrange(0, 6)):
+                w |= 1 << rng.randrange(64)
+        elif st == "dense":
+            w = 2 ** 64 - 1
+            for _ in range(rng.randrange(0, 6)):
+                w &= ~(1 << rng.randrange(64))
+        else:
+            w = 0
+            for b in range(8):
+                w |= rng.choice([0, 0xFF, 0x80, 0x01, rng.getrandbits(8)]) << (8 * b)
+        words.append(w)
+    for w in words:
+        pc = bin(w).count("1")
+        for kq in sorted(set([0, pc - 1 if pc else 0, pc, min(pc + 1, 63), 63, rng.randrange(64)])):
+            c.add("FN selword %d %d" % (w, kq))
+    out.append(c)
+    c = Case("c17-selword128", tags=dict(kind="select_in_word_u128"))
+    for _ in range(sizes(tier, 1200, 12000)):
+        st = rng.choice(["uniform", "lowzero", "highzero", "sparse", "full"])
+        w = rng.getrandbits(128)
+        if st == "lowzero":
+            w &= ~(2 ** 64 - 1)
+        elif st == "highzero":
+            w &= 2 ** 64 - 1
+        elif st == "sparse":
+            w = (1 << rng.randrange(128)) | (1 << rng.randrange(128))
+        elif st == "full":
+            w = 2 ** 128 - 1
+        pc = bin(w).count("1")
+        for kq in sorted(set([0, pc - 1 if pc else 0, pc, min(pc + 1, 127), 127, rng.randrange(128)])):
+            c.add("FN selword128 %d %d" % (w, kq))
+    out.append(c)
+    c = Case("c17-misc", tags=dict(kind="popcnt/msb"))
+    for _ in range(sizes(tier, 300, 3000)):
+        nn = rng.choice([1, 2, 3, 4, 8])
+        ws = [rng.getrandbits(64) for _ in range(rng.randrange(0, 10))]
+        c.add("FN popcnt %d %s" % (nn, " ".join(map(str, ws))))
+        wd = rng.choice([8, 16, 32, 64, 128])
+        v = rng.choice([0, 1, 2 ** wd - 1, 2 ** (wd - 1), rng.getrandbits(wd), 1 << rng.randrange(wd)])
+        c.add("FN msb %d %d" % (wd, v))
+    out.append(c)
+    for k in range(sizes(tier, 150, 1500)):
+        wd = rng.choice([8, 16, 32, 64, 65, 128])
+        bits = 64 if wd == 65 else wd
+        n = rng.choice([0, 1, 2, 5, 40, 300])
+        four = rng.random() < 0.5
+        shift = rng.randrange(0, bits - (1 if four else 0))
+        vals = [rng.choice([rng.getrandbits(bits), rng.getrandbits(bits) & (0xF << shift), 2 ** bits - 1, 0]) for _ in range(n)]
+        c = Case("c17-part%d" % k, tags=dict(kind="part4" if four else "part2", width=wd, shift=shift, n=n))
+        c.add("FN %s %d %d %s" % ("part4" if four else "part2", wd, shift, " ".join(map(str, vals))))
+        out.append(c)
+    c = Case("c17-remap", tags=dict(kind="text_remap"))
+    for _ in range(sizes(tier, 200, 2000)):
+        n = rng.choice([0, 1, 2, 10, 300])
+        alpha = rng.sample(range(256), rng.randrange(1, 257))
+        c.add("FN remap %s" % " ".join(str(rng.choice(alpha)) for _ in range(n)))
+    out.append(c)
+    return out
+
+
+# ------------------------------------------------------------------------------- C18
+def gen_c18(rng, tier):
+    out = []
+    for k in range(sizes(tier, 80, 400)):
+        c = any_structure_case(rng, "c18-%d" % k, tier, small=False)
+        if c.fam in ("qv", "bvm"):
+            c.fam = "skip"
+        queries = [l for l in c.lines if l.startswith("Q ") and l != "Q codes"]
+        c.add("SER")
+        for q in queries:
+            c.add("THREADS %d %s" % (rng.choice([2, 4, 8, 16]), q[2:]))
+        for q in queries:      # repeating a query gives the same answer
+            c.add(q)
+        c.add("SER")
+        c.model = False
+        out.append(c)
+    return out
+
+
+def post_c18(prop, cases, outs, profiles):
+    import check as K
+    fs = []
+    idx = 0
+    for c in cases:
+        idx += 1
+        sers = {}
+        for kk, l in enumerate(c.lines):
+            for prof in profiles:
+                a = outs[prof][idx]
+                if l == "SER":
+                    if prof in sers and sers[prof] != a:
+                        fs.append(K.Finding("violation", prop, c, kk, l, prof, sers[prof][:40], a[:40], "serialized form changed after a batch of queries"))
+                    sers.setdefault(prof, a)
+            idx += 1
+    return fs
+
+
+# ------------------------------------------------------------------------------- C19
+def gen_c19(rng, tier):
+    out = []
+    k = 0
+    for _ in range(sizes(tier, 60, 300)):
+        fam = rng.choice(["q", "hq", "w", "hw"])
+        n = rng.choice([0, 1, 2, 100, 257, 1000, 2049])
+        mx = rng.choice([0, 1, 3, 4, 17, 100, 255])
+        alpha, _ = C.gen_alphabet(rng, mx)
+        seq, mix = C.gen_seq(rng, n, alpha)
+        kinds = {"q": QWT_KINDS, "hq": HQ_KINDS, "w": ["wt"], "hw": ["hwt"]}[fam]
+        kind = rng.choice(kinds)
+        c = Case("c19-%d" % k, tags=dict(kind=kind, n=n, mix=mix, cost=n * 30))
+        k += 1
+        first = True
+        # every path and every admissible width: same answers; same type: equal values
+        for elem in ["u8", "u16", "u32", "u64", "usize", "u128"]:
+            for path in ["new", "from", "collect"]:
+                c.add(C.new_line(kind, elem, path, seq))
+                if fam in ("hq", "hw"):
+                    c.add("Q codes")
+                c.add("Q len")
+                c.add("Q getall")
+                for sym in sorted(set(seq))[:4] + [mx + 1]:
+                    c.add("Q rankall %d" % sym)
+                    c.add("Q selectall %d %d" % (sym, seq.count(sym) + 1))
+                if path == "new":
+                    c.add("STORE %s" % elem)
+                else:
+                    c.add("EQ %s" % elem)
+                c.add("CLONE")
+                c.add("EQ %s" % elem)
+        # a different sequence never compares equal
+        if n:
+            seq2 = list(seq)
+            j = rng.randrange(n)
+            seq2[j] = (seq2[j] + 1) % (mx + 1) if mx else 1
+            if seq2 != seq:
+                c.add(C.new_line(kind, "u8", "new", seq2))
+                if fam in ("hq", "hw"):
+                    c.add("Q codes")
+                c.add("EQ u8")
+        c.model = False
+        out.append(c)
+    # quad / bit structures: construction paths compare equal
+    for _ in range(sizes(tier, 50, 250)):
+        n = rng.choice([0, 1, 255, 256, 257, 1000, 2049, 4097])
+        kind = rng.choice(["rsq256", "rsq512"])
+        s, mix = C.gen_quad_seq(rng, n)
+        c = Case("c19-r%d" % k, tags=dict(kind=kind, n=n, mix=mix))
+        k += 1
+        c.add(C.new_line(kind, "u64", "new", s))
+        c.add("STORE a")
+        for path in ["from", "collect"]:
+            c.add(C.new_line(kind, "u64", path, s))
+            c.add("EQ a")
+            c.add("Q rankall %d" % rng.randrange(4))
+        c.add("CLONE")
+        c.add("EQ a")
+        if n:
+            s2 = list(s)
+            s2[rng.randrange(n)] ^= 1
+            c.add(C.new_line(kind, "u64", "new", s2))
+            c.add("EQ a")
+        c.model = False
+        out.append(c)
+    for _ in range(sizes(tier, 50, 250)):
+        n = rng.choice([0, 1, 63, 64, 65, 511, 512, 513, 2000])
+        bits, mix = C.gen_bits(rng, n)
+        if bits and bits[-1] == 0 and rng.random() < 0.7:
+            bits[-1] = 1       # position-based constructors cannot express trailing zeros
+        kind = rng.choice(["rsn", "rsw", "darray0", "darray1", "bv", "bvm"])
+        c = Case("c19-b%d" % k, tags=dict(kind=kind, n=n, mix=mix))
+        k += 1
+        pos = [i for i, b in enumerate(bits) if b]
+        if kind in ("rsn", "rsw"):
+            c.add(C.bits_line(kind, "new", bits)); c.add("STORE a")
+            c.add(C.bits_line(kind, "from", bits)); c.add("EQ a")
+        elif kind.startswith("darray"):
+            c.add(C.bits_line(kind, "new", bits)); c.add("STORE a")
+            c.add(C.bits_line(kind, "bits", bits)); c.add("EQ a")
+            if bits and bits[-1] == 1:
+                c.add("NEW %s - pos %d %s" % (kind, len(pos), " ".join(map(str, pos)))); c.add("EQ a")
+        else:
+            c.add(C.bits_line(kind, "bits", bits)); c.add("STORE a")
+            if bits and bits[-1] == 1:
+                c.add("NEW %s - pos %d %s" % (kind, len(pos), " ".join(map(str, pos)))); c.add("EQ a")
+        c.add("CLONE"); c.add("EQ a")
+        if n:
+            b2 = list(bits); b2[rng.randrange(n)] ^= 1
+            c.add(C.bits_line(kind, "new" if kind in ("rsn", "rsw") or kind.startswith("darray") else "bits", b2)); c.add("EQ a")
+        c.model = False
+        out.append(c)
+    return out
+
+
+# ------------------------------------------------------------------------------- C04
+def gen_c04(rng, tier):
+    """every safe method, every way of obtaining a value, arguments from the whole domain"""
+    out = []
+    wild = [0, 1, 2, 3, 4, 5, 255, 256, 2 ** 32, 2 ** 63, MAXU - 1, MAXU]
+    for k in range(sizes(tier, 160, 800)):
+        c = any_structure_case(rng, "c04-%d" % k, tier)
+        fam = c.fam
+        n = c.tags.get("n", 0)
+        how = rng.choice(["built", "built", "default", "clone", "serde"])
+        head = [l for l in c.lines if l.startswith("NEW") or l == "Q codes"]
+        if how == "default":
+            t = head[0].split()
+            head = ["NEW %s %s default 0 -" % (t[1], t[2])] if fam in ("rsn", "rsw", "da", "bv", "bvm") else ["NEW %s %s default 0" % (t[1], t[2])]
+            n = 0
+            c.seq = []
+        c.lines = head
+        if how == "clone":
+            c.add("CLONE")
+        if how == "serde":
+            c.add("RT")
+        args = wild + [n, n + 1, max(n - 1, 0), rng.randrange(n + 1)]
+        width = WIDTH.get(head[0].split()[2], 64)
+        tmax = 2 ** width - 1
+        if fam in ("q", "hq", "w", "hw"):
+            syms = [s for s in set([0, 1, 3, 4, 255, tmax, tmax - 1, 2 ** 64 + 1, 2 ** 64] + list(c.seq[:3])) if s <= tmax]
+            for l in ["Q len", "Q isempty", "Q nlevels", "Q sigma"]:
+                c.add(l)
+            for a in args:
+                c.add("Q get %d" % a)
+                for s in syms:
+                    c.add("Q rank %d %d" % (s, a))
+                    c.add("Q select %d %d" % (s, a))
+                    if fam in ("q", "hq"):
+                        c.add("Q rankp %d %d" % (s, a))
+            c.add("ITER iter nbnblnnbbl")
+        elif fam == "rsq":
+            for a in args:
+                c.add("Q get %d" % a)
+                for s in [0, 1, 2, 3, 4, 5, 17, 255]:
+                    c.add("Q rank %d %d" % (s, a))
+                    c.add("Q select %d %d" % (s, a))
+            for s in [0, 1, 2, 3, 4, 5, 17, 255]:
+                c.add("Q occs %d" % s)
+                c.add("Q occssmaller %d" % s)
+            c.add("Q len"); c.add("Q isempty"); c.add("ITER iter nnnn")
+        elif fam == "qv":
+            for a in args:
+                c.add("Q get %d" % a)
+            c.add("Q len"); c.add("Q isempty"); c.add("ITER iter nnnn"); c.add("ITER into nnnn")
+        elif fam in ("rsn", "rsw"):
+            for a in args:
+                for q in ["get", "rank1", "rank0", "select1", "select0"]:
+                    c.add("Q %s %d" % (q, a))
+            c.add("Q nones"); c.add("Q nzeros"); c.add("Q tnzeros")
+        elif fam == "da":
+            for a in args:
+                c.add("Q get %d" % a)
+                c.add("Q select1 %d" % a)
+                c.add("Q select0 %d" % a)      # darray0: documented panic
+            for l in ["Q len", "Q isempty", "Q countones", "Q countzeros", "Q ones", "Q zeros", "ITER bits nnll"]:
+                c.add(l)
+            for a in args[:6] + [n, n + 1]:
+                c.add("Q oneswp %d" % a)
+        else:
+            for a in args:
+                c.add("Q get %d" % a)
+                c.add("Q getword %d" % a)       # documented panic when out of range
+                for ln in [0, 1, 64, 65, MAXU]:
+                    c.add("Q getbits %d %d" % (a, ln))
+            for l in ["Q len", "Q isempty", "Q countones", "Q countzeros", "ITER iter nnll", "ITER into nnllnl"]:
+                c.add(l)
+            for a in args[:6] + [n, n + 1]:
+                c.add("Q oneswp %d" % a)
+                c.add("Q zeroswp %d" % a)
+            if fam == "bvm":
+                for a in [0, n, n + 1, MAXU]:
+                    c.add("OP set %d 1" % a)            # documented panic out of bounds
+                    c.add("OP setbits %d 2 3" % a)
+                c.add("OP append 4 2")                   # stray bit: documented panic
+                c.add("OP append 1 65")
+                c.add("OP push 1")
+                c.add("Q len")
+        c.tags.update(how=how, cost=n * 10)
+        c.model = n <= 1100
+        out.append(c)
+    return out
+
+
 PROPS = {
+    "C04": dict(gen=gen_c04),
+    "C09": dict(gen=gen_c09, profiles=["dbg", "rel", "relnopf"], post=post_c09),
+    "C10": dict(gen=gen_c10),
+    "C11": dict(gen=gen_c11, post=post_c11),
+    "C12": dict(gen=gen_c12),
+    "C17": dict(gen=gen_c17),
+    "C18": dict(gen=gen_c18, post=post_c18),
+    "C19": dict(gen=gen_c19),
     "C06": dict(gen=gen_c06),
     "C07": dict(gen=gen_c07),
     "C08": dict(gen=gen_c08),
